@@ -8,14 +8,166 @@ from ..absstate import State
 from ..absval import ABytes, UNK
 from ..core import AnalysisError
 from ..pydb import norm, params_of, walk_no_nested
+from ..rules_g import (Row, run_row, ObsRow, run_obs, I, S, Mult, Pred, OBJ, B,
+                       INT, LEN, INJECT, make_snippet)
+
+H = bytes.fromhex
 
 
 def x5_sites(repo, funcs):
     return []
 
 
+# (driver expression, [(label, der bytes, accepted?)])
+DER_TABLE = [
+    ("DerOctetString().decode(data)", [
+        ("empty string", H("0400"), True),
+        ("one byte", H("0401aa"), True),
+        ("128-byte payload, long form 81 80", H("048180") + bytes(128), True),
+        ("256-byte payload, long form 82 0100", H("04820100") + bytes(256), True),
+        ("no input", b"", False),
+        ("tag only", H("04"), False),
+        ("truncated payload", H("0402aa"), False),
+        ("trailing byte after the element", H("0401aabb"), False),
+        ("long form for a length below 128", H("048101aa"), False),
+        ("long form with a leading zero", H("04820080") + bytes(128), False),
+        ("indefinite length 80", H("0480"), False),
+        ("indefinite length with end-of-contents", H("0480aa0000"), False),
+        ("wrong universal tag", H("0500"), False),
+    ]),
+    ("DerInteger().decode(data, strict=True)", [
+        ("zero", H("020100"), True),
+        ("127", H("02017f"), True),
+        ("128 needs a leading zero", H("02020080"), True),
+        ("-128", H("020180"), True),
+        ("non-minimal 00 7F", H("0202007f"), False),
+        ("non-minimal 00 00", H("02020000"), False),
+        ("empty INTEGER", H("0200"), False),
+        ("trailing data", H("02010000"), False),
+    ]),
+    ("DerInteger(explicit=3).decode(data)", [
+        ("explicit [3] INTEGER", H("a303020134"), True),
+        ("extra element inside the explicit wrapper", H("a3050201340500"), False),
+        ("extra byte inside the explicit wrapper", H("a30402013400"), False),
+        ("extra byte after the wrapper", H("a30302013400"), False),
+        ("wrong inner tag", H("a303040134"), False),
+        ("wrong outer tag", H("a403020134"), False),
+        ("inner length exceeds the wrapper", H("a303020234"), False),
+    ]),
+    ("DerBoolean().decode(data)", [
+        ("FALSE", H("010100"), True),
+        ("TRUE", H("0101ff"), True),
+        ("TRUE encoded as 01", H("010101"), False),
+        ("two bytes", H("01020000"), False),
+        ("empty", H("0100"), False),
+    ]),
+    ("DerBitString().decode(data)", [
+        ("no unused bits", H("030200aa"), True),
+        ("unused bits = 1", H("030201aa"), False),
+        ("unused bits = 7", H("030207aa"), False),
+        ("trailing data", H("030200aa00"), False),
+    ]),
+    ("DerNull().decode(data)", [
+        ("NULL", H("0500"), True),
+    ]),
+    ("DerSequence().decode(data)", [
+        ("empty sequence", H("3000"), True),
+        ("one integer", H("3003020105"), True),
+        ("integer and octet string", H("30060201050401aa"), True),
+        ("member truncated", H("30030201"), False),
+        ("member longer than the sequence", H("3003020205"), False),
+        ("trailing data", H("300302010500"), False),
+    ]),
+    ("DerSequence().decode(data, nr_elements=2)", [
+        ("two members", H("3006020105020106"), True),
+        ("one member", H("3003020105"), False),
+        ("three members", H("3009020105020106020107"), False),
+    ]),
+    ("DerSequence().decode(data, only_ints_expected=True)", [
+        ("integers only", H("3006020105020106"), True),
+        ("an octet string among integers", H("30050201050400"), False),
+    ]),
+    ("DerSetOf().decode(data)", [
+        ("two integers", H("3106020105020106"), True),
+        ("mixed member types", H("31050201050400"), False),
+    ]),
+    ("DerObjectId().decode(data)", [
+        ("1.2.3.4", H("06032a0304"), True),
+        ("2.999.3 (large second arc)", H("0603883703"), True),
+        ("trailing data", H("06032a030400"), False),
+        ("last arc truncated (continuation bit set)", H("06022a83"), False),
+    ]),
+]
+
+
 def strictness(check, repo):
-    pass
+    n = 0
+    for expr, cases in DER_TABLE:
+        src = "def _vstat_der(data):\n    return %s\n" % expr
+        mod, fn = make_snippet(repo, "Crypto.Util.asn1", src)
+        wrong = []
+        shown = []
+        for label, data, accept in cases:
+            it = Interp(repo, max_depth=16, budget=2000000)
+            res = it.run(mod, fn, {"data": data})
+            n += 1
+            rej = res.rejected()
+            classes = res.raise_classes()
+            shown.append("%s:%s" % (label, "rejected" if rej else "accepted"))
+            if accept and rej:
+                wrong.append("valid encoding refused (%s): %s %s" % (",".join(classes), label, data.hex()))
+            elif not accept and not rej:
+                wrong.append("accepted: %s %s" % (label, data.hex()))
+            elif not accept and rej:
+                kill = [k[1] for k in res.killers if k[0] == "raise"] or classes
+                bad = [c for c in kill if "ValueError" not in it.exc_mro(c, mod)]
+                if bad:
+                    wrong.append("%s raised for: %s %s" % (",".join(bad), label, data.hex()))
+        check.ob("G", "G|der|" + expr, not wrong, mod.path, 0,
+                 extracted=("; ".join(shown[:8]) if not wrong else "WRONG " + "; ".join(wrong[:3])),
+                 expected="strict definite-length DER: exactly the listed valid "
+                          "encodings are accepted, everything else raises ValueError",
+                 note="X.690 8.1.3, 8.3, 8.2, 8.6, 10.1; distinguishing encodings "
+                      "interpreted abstractly over the decoder's AST")
+    check.count("der_encodings_interpreted", n)
+    # ---- unpad ---------------------------------------------------------------
+    PAD = "Crypto.Util.Padding"
+    run_row(check, repo, Row(
+        "unpad.len", "C13", PAD, "unpad", Mult(8) & I(8, None), LEN("padded_data"),
+        base={"block_size": 8, "style": "pkcs7"}, domain=I(0, 64),
+        extra_points=(8, 16, 24, 12), cite="length is a positive multiple of the block size"))
+    for style in ("pkcs7", "x923"):
+        for dlen, bs in ((16, 8), (8, 8), (32, 16), (16, 4)):
+            run_row(check, repo, Row(
+                "unpad.padlen.%s.%d.%d" % (style, dlen, bs), "C13", PAD, "unpad",
+                I(1, min(bs, dlen)), INJECT("assign:padding_len"),
+                base={"padded_data": B(dlen), "block_size": bs, "style": style},
+                domain=I(0, 255), extra_points=(bs, dlen, bs + 1, dlen + 1),
+                cite="PKCS#7 / ANSI X.923: 1 <= padding length <= block size"))
+    # content checks on concrete data
+    cases = [
+        ("pkcs7 valid 04x4", ("pkcs7", H("aabbccdd04040404")), True),
+        ("pkcs7 full block", ("pkcs7", H("0808080808080808")), True),
+        ("pkcs7 one pad byte wrong", ("pkcs7", H("aabbccdd04040304")), False),
+        ("pkcs7 first pad byte wrong", ("pkcs7", H("aabbccdd05040404")), False),
+        ("pkcs7 pad length 0", ("pkcs7", H("aabbccddeeff0000")), False),
+        ("pkcs7 pad length 9 > block", ("pkcs7", H("0909090909090909")), False),
+        ("x923 valid", ("x923", H("aabbccdd00000004")), True),
+        ("x923 non-zero filler", ("x923", H("aabbccdd00010004")), False),
+        ("x923 pad length 0", ("x923", H("aabbccdd00000000")), False),
+        ("iso7816 valid", ("iso7816", H("aabbccdd80000000")), True),
+        ("iso7816 marker as last byte", ("iso7816", H("aabbccddeeff1180")), True),
+        ("iso7816 no marker", ("iso7816", H("aabbccdd00000000")), False),
+        ("iso7816 garbage after marker", ("iso7816", H("aabbccdd80000100")), False),
+        ("iso7816 marker beyond one block", ("iso7816", H("aabbccdd80000000") + bytes(8)), False),
+        ("unknown style", ("pkcs5", H("aabbccdd04040404")), False),
+    ]
+    run_row(check, repo, Row(
+        "unpad.content", "C13", PAD, "unpad",
+        Pred(lambda c: dict((x[1], x[2]) for x in cases)[c], "padding defined by the style"),
+        lambda c: {"args": {"style": c[0], "padded_data": c[1]}},
+        base={"block_size": 8}, cases=[(x[0], x[1]) for x in cases],
+        cite="PKCS#7, ANSI X.923, ISO/IEC 7816-4 padding contents"))
 
 
 def regex_lint(check, repo):
